@@ -31,7 +31,9 @@ fn run_hist<D: Driver>(opts: &RunOpts) -> i32 {
         let _ = std::fs::write(out, &js);
         // distinct sets of every property, for cross-shard unions
         for (p, s) in &outcome.ctx.props {
-            engine::write_hashes(&format!("{}.{}.hashes", out, p), &s.distinct);
+            if opts.prop == "all" || opts.prop == *p {
+                engine::write_hashes(&format!("{}.{}.hashes", out, p), &s.distinct);
+            }
         }
         engine::write_hashes(&format!("{}.states.hashes", out), &outcome.ctx.states);
     } else {
@@ -240,7 +242,9 @@ fn run_conc(args: &[String]) -> i32 {
     if let Some(o) = &out {
         let _ = std::fs::write(o, &j.s);
         for (p, s) in &ctx.props {
-            engine::write_hashes(&format!("{}.{}.hashes", o, p), &s.distinct);
+            if prop == "all" || prop == *p {
+                engine::write_hashes(&format!("{}.{}.hashes", o, p), &s.distinct);
+            }
         }
         engine::write_hashes(&format!("{}.states.hashes", o), &st.sigs);
     } else {
